@@ -828,8 +828,11 @@ func (fr *frame) site() string {
 	return fmt.Sprintf("%s:%d", shortFile(p.Filename), p.Line)
 }
 
+// RepoPrefix is stripped from file names in reported source positions.
+var RepoPrefix = "/repo/"
+
 func shortFile(f string) string {
-	const pfx = "/repo/"
+	pfx := RepoPrefix
 	if len(f) > len(pfx) && f[:len(pfx)] == pfx {
 		return f[len(pfx):]
 	}
